@@ -175,8 +175,8 @@ Section LevelOrd.
     exists pre c post c',
       l = pre ++ c :: post /\ r = Obj d (rev kept_rev ++ pre ++ c' :: post) m i x /\
       ((vdc c = VRecurse /\ rec c o = (c', out)) \/
-       (c' = c /\ (vdc c = VMergeKeep \/ vdc c = VMergeEqual)) \/
-       (c' = replace_payload c od /\ vdc c = VReplace)).
+       (c' = c /\ (vdc c = VMergeKeep \/ vdc c = VMergeEqual) /\ out <> OInserted) \/
+       (c' = replace_payload c od /\ vdc c = VReplace /\ out = OReplaced)).
   Proof.
     induction l as [|c tl IH]; intros kept_rev putp o r out Ho Hne Hall Hd E Hout.
     - left. cbn [ins_loop] in E. injection E as _ E. split; [symmetry; exact E|constructor].
@@ -184,12 +184,12 @@ Section LevelOrd.
       cbn [map] in Hd. inversion Hd as [|k ks Hd1 Hd2]; subst k ks.
       cbn [ins_loop] in E. rewrite Ho in E. fold (vdc c) in E.
       destruct (vdc c) as [| | | | | |mt] eqn:V.
-      + right. injection E as E1 _. exists [], c, tl, c. cbn [app]. split; [reflexivity|]. split; [symmetry; exact E1|].
-        right; left. split; [reflexivity|left; exact V].
-      + right. injection E as E1 _. exists [], c, tl, c. cbn [app]. split; [reflexivity|]. split; [symmetry; exact E1|].
-        right; left. split; [reflexivity|right; exact V].
-      + right. injection E as E1 _. exists [], c, tl, (replace_payload c od). cbn [app]. split; [reflexivity|]. split; [symmetry; exact E1|].
-        right; right. split; [reflexivity|exact V].
+      + right. injection E as E1 E2. exists [], c, tl, c. cbn [app]. split; [reflexivity|]. split; [symmetry; exact E1|].
+        right; left. split; [reflexivity|]. split; [left; exact V|rewrite <- E2; discriminate].
+      + right. injection E as E1 E2. exists [], c, tl, c. cbn [app]. split; [reflexivity|]. split; [symmetry; exact E1|].
+        right; left. split; [reflexivity|]. split; [right; exact V|rewrite <- E2; discriminate].
+      + right. injection E as E1 E2. exists [], c, tl, (replace_payload c od). cbn [app]. split; [reflexivity|]. split; [symmetry; exact E1|].
+        right; right. split; [reflexivity|]. split; [exact V|symmetry; exact E2].
       + right. destruct (rec c o) as [c' r'] eqn:R. injection E as E1 E2. subst r'.
         exists [], c, tl, c'. cbn [app]. split; [reflexivity|]. split; [symmetry; exact E1|]. left. split; [exact V|exact R].
       + exfalso. injection E as _ E. apply Hout. symmetry; exact E.
@@ -242,7 +242,7 @@ Section LevelOrd.
       assert (Hokc : tree_ord c) by (rewrite Forall_forall in Hch; apply Hch, Hcin).
       assert (Hwc : wfk (odata c)) by (apply tree_ord_wfk, Hokc).
       assert (G : tree_ord c' /\ okey c' = okey c).
-      { destruct Hcase as [[V R]|[[-> _]|[-> V]]].
+      { destruct Hcase as [[V R]|[[-> _]|[-> [V _]]]].
         - assert (Hsubc : sub (dcs od) (okey c)) by (eapply recurse_sub; eassumption).
           rewrite Forall_forall in Hrec. destruct (Hrec c Hcin o c' out Ho Hsubc R Hout) as [H1 H2].
           split; [exact H1|]. unfold okey. now rewrite H2.
